@@ -148,8 +148,14 @@ def gen_doc(rng):
         else:
             par = rng.choice(ALIGNS) + rng.choice(['', ' meet', ' slice'])
             ov = rng.choice(['', ' overflow="visible"', ' overflow="hidden"'])
+            inner = ''
+            if rng.random() < 0.4:
+                # a nested svg inside the nested svg; without width/height it fills the outer one's viewBox
+                size = rng.choice(['', f' width="{rng.choice([5, 8])}" height="{rng.choice([5, 8])}"', f' width="{rng.choice([5, 8])}"'])
+                inner = (f'<svg x="{rng.randint(0, 3)}" y="{rng.randint(0, 3)}"{size} viewBox="0 0 {rng.choice([10, 5])} {rng.choice([10, 8])}" '
+                         f'overflow="visible">{shape()}</svg>')
             body += (f'<svg x="{rng.randint(0, 8)}" y="{rng.randint(0, 8)}" width="{rng.choice([6, 8, 10])}" height="{rng.choice([6, 8])}" '
-                     f'viewBox="{rng.randint(0, 3)} {rng.randint(0, 3)} {rng.choice([10, 20])} {rng.choice([10, 16])}" preserveAspectRatio="{par}"{ov}>{shape()}{shape()}</svg>')
+                     f'viewBox="{rng.randint(0, 3)} {rng.randint(0, 3)} {rng.choice([10, 20])} {rng.choice([10, 16])}" preserveAspectRatio="{par}"{ov}>{shape()}{inner}{shape()}</svg>')
     return f'<svg xmlns="{SVGNS}" xmlns:xlink="http://www.w3.org/1999/xlink" viewBox="0 0 20 20"><defs>{defs}</defs>{body}</svg>'
 
 def judge_doc(doc):
